@@ -7,7 +7,7 @@ import (
 // Skeleton programs for dependency / fork shapes that the purely random
 // generator reaches rarely.  Types and literal values are still random.
 
-const NTemplates = 8
+const NTemplates = 9
 
 // NFileTemplates file-passing skeletons follow the NTemplates dataflow ones.
 const NFileTemplates = 5
@@ -142,7 +142,7 @@ func Template(kind int, seed int64, cfg *Config) *Program {
 			},
 			Ret: []Binding{{Id: "y", Exp: ref("M2", "y")}, {Id: "z", Exp: ref("M1", "z")}}}
 		p.Pipelines = []*Pipeline{top}
-	default:
+	case 5:
 		// map call disabled by a run-time flag; empty/null source; stage independent of the mapped dimension
 		inner := &Pipeline{Name: "INNER", Ins: []Param{{Name: "a", Type: T}}, Outs: []Param{{Name: "y", Type: TInt}, {Name: "n", Type: TInt}},
 			Calls: []*Call{{Callee: "USE", Binds: []Binding{{Id: "x", Exp: self("a")}}}, {Callee: "NOP"}},
@@ -193,13 +193,55 @@ func Template(kind int, seed int64, cfg *Config) *Program {
 			},
 			Ret: []Binding{{Id: "yi", Exp: ref("M1", "yi")}, {Id: "kk", Exp: ref("M1", "kk")}, {Id: "n", Exp: ref("COLL", "n")}}}
 		p.Pipelines = []*Pipeline{inner, top}
-	case 8, 9, 10, 11, 12:
+	case 8:
+		// the same pipeline definition (containing a map call) instantiated
+		// twice, the second instance consuming the first one's merged output;
+		// map source: a literal (static forks) or a run-time collection
+		static := g.pct(50)
+		xT, ysT := T, wrap(TInt)
+		var srcExp *Exp
+		if static {
+			xT, ysT = TInt, ArrayOf(TInt)
+			srcExp = &Exp{Kind: EArray, Elems: []*Exp{lit(s1), lit(s2)}}
+		} else {
+			srcExp = self("arr")
+		}
+		sub := &Pipeline{Name: "INNER", Ins: []Param{{Name: "c", Type: ysT}, {Name: "k", Type: TInt}},
+			Outs: []Param{{Name: "ys", Type: ysT}},
+			Calls: []*Call{
+				{Callee: "CHAIN", Map: true, Binds: []Binding{{Id: "x", Exp: srcExp, Split: true}, {Id: "c", Exp: self("c")}, {Id: "k", Exp: self("k")}}},
+			},
+			Ret: []Binding{{Id: "ys", Exp: ref("CHAIN", "y")}}}
+		p.Stages = append(p.Stages, src(&Stage{Name: "CHAIN", Ins: []Param{{Name: "x", Type: xT}, {Name: "c", Type: ysT}, {Name: "k", Type: TInt}}, Outs: []Param{{Name: "y", Type: TInt}}}))
+		empty := &Exp{Kind: EArray}
+		if !static {
+			sub.Ins = append(sub.Ins, Param{Name: "arr", Type: coll})
+			empty = &Exp{Kind: ENull}
+		}
+		top := &Pipeline{Name: "TOP", Outs: []Param{{Name: "ys", Type: ysT}},
+			Calls: []*Call{
+				{Callee: "GEN", Binds: []Binding{{Id: "seed", Exp: lit(s1)}}},
+				{Callee: "INNER", Alias: "FIRST", Binds: []Binding{{Id: "c", Exp: empty}, {Id: "k", Exp: lit(1)}}},
+				{Callee: "INNER", Alias: "SECOND", Binds: []Binding{{Id: "c", Exp: ref("FIRST", "ys")}, {Id: "k", Exp: lit(2)}}},
+				{Callee: "CHK", Binds: []Binding{{Id: "v", Exp: ref("GEN", "one")}}},
+			},
+			Ret: []Binding{{Id: "ys", Exp: ref("SECOND", "ys")}}}
+		if !static {
+			top.Calls[1].Binds = append(top.Calls[1].Binds, Binding{Id: "arr", Exp: ref("GEN", "arr")})
+			top.Calls[2].Binds = append(top.Calls[2].Binds, Binding{Id: "arr", Exp: ref("GEN", "arr")})
+		}
+		if T.Kind != KInt {
+			top.Calls = top.Calls[:3] // CHK takes an int
+		}
+		p.Pipelines = []*Pipeline{sub, top}
+	default:
+		fk := kind - NTemplates // file-passing skeleton number
 		// file-passing skeletons: a stage mapped over a run-time sized
 		// collection writes files;
-		//  8: the files are only returned from the top level (no stage consumes them)
-		//  9: the files are only named by a pipeline retain
-		// 10: the files are consumed by a second mapped stage and returned
-		// 11: an unmapped stage returns a collection of structs; only the file
+		//  0: the files are only returned from the top level (no stage consumes them)
+		//  1: the files are only named by a pipeline retain
+		//  2: the files are consumed by a second mapped stage and returned
+		//  3: an unmapped stage returns a collection of structs; only the file
 		//     member, projected through the collection, is returned
 		sf := &Struct{Name: "SF", Fields: []Param{{Name: "f", Type: TFile}, {Name: "n", Type: TInt}}}
 		p.Structs = append(p.Structs, sf)
@@ -213,8 +255,8 @@ func Template(kind int, seed int64, cfg *Config) *Program {
 				{Callee: "GENI", Binds: []Binding{{Id: "seed", Exp: lit(s1)}}},
 				{Callee: "MK", Map: true, Volatile: g.pct(50), Binds: []Binding{{Id: "x", Exp: ref("GENI", "arr"), Split: true}}},
 			}}
-		switch kind {
-		case 12:
+		switch fk {
+		case 4:
 			// statically forked producer (literal map source) whose collection-
 			// typed file outputs are empty in some forks and not in others,
 			// consumed inside the same fork of the enclosing pipeline
@@ -236,7 +278,7 @@ func Template(kind int, seed int64, cfg *Config) *Program {
 			top.Ret = []Binding{{Id: "y", Exp: ref("INNERF", "y")}}
 			p.Stages = p.Stages[3:] // GENI, MK, CONS unused here
 			p.Pipelines = []*Pipeline{inner}
-		case 11:
+		case 3:
 			mks := src(&Stage{Name: "MKS", Ins: []Param{{Name: "x", Type: wrap(TInt)}}, Outs: []Param{{Name: "ms", Type: TMapOf(tsf)}, {Name: "arrs", Type: ArrayOf(tsf)}, {Name: "g", Type: TFile}, {Name: "one", Type: tsf}}})
 			p.Stages = append(p.Stages, mks)
 			top.Calls = []*Call{top.Calls[0],
@@ -244,14 +286,14 @@ func Template(kind int, seed int64, cfg *Config) *Program {
 				{Callee: "CONS", Binds: []Binding{{Id: "f", Exp: ref("MKS", "g")}, {Id: "s", Exp: ref("MKS", "one")}}}}
 			top.Outs = []Param{{Name: "fs", Type: TMapOf(TFile)}, {Name: "fa", Type: ArrayOf(TFile)}, {Name: "f1", Type: TFile}, {Name: "y", Type: TInt}}
 			top.Ret = []Binding{{Id: "fs", Exp: ref("MKS", "ms", "f")}, {Id: "fa", Exp: ref("MKS", "arrs", "f")}, {Id: "f1", Exp: ref("MKS", "one", "f")}, {Id: "y", Exp: ref("CONS", "y")}}
-		case 8:
+		case 0:
 			top.Outs = []Param{{Name: "f", Type: wrap(TFile)}, {Name: "s", Type: wrap(tsf)}, {Name: "fs", Type: wrap(ArrayOf(TFile))}}
 			top.Ret = []Binding{{Id: "f", Exp: ref("MK", "f")}, {Id: "s", Exp: ref("MK", "s")}, {Id: "fs", Exp: ref("MK", "fs")}}
-		case 9:
+		case 1:
 			top.Outs = []Param{{Name: "n", Type: wrap(TInt)}}
 			top.Ret = []Binding{{Id: "n", Exp: ref("GENI", "arr")}}
 			top.Retain = []*Exp{ref("MK", "f"), ref("MK", "fs")}
-		case 10:
+		case 2:
 			top.Calls = append(top.Calls, &Call{Callee: "CONS", Map: true, Binds: []Binding{{Id: "f", Exp: ref("MK", "f"), Split: true}, {Id: "s", Exp: ref("MK", "s"), Split: true}}})
 			top.Outs = []Param{{Name: "f", Type: wrap(TFile)}, {Name: "y", Type: wrap(TInt)}}
 			top.Ret = []Binding{{Id: "f", Exp: ref("MK", "f")}, {Id: "y", Exp: ref("CONS", "y")}}
